@@ -89,6 +89,9 @@ def hitReg (c : BankCfg) (adr k : Nat) : Option Simple :=
 /-- Bus address of word `j` of register `k` of this bank. -/
 def wordAdr (c : BankCfg) (k j : Nat) : Nat := c.address * 2 ^ c.pbits + addrOf c.bw c.ord c.regs k j
 
+/-- Lowest bus address occupied by register `k`. -/
+def lowAdr (c : BankCfg) (k : Nat) : Nat := c.address * 2 ^ c.pbits + regBase c.bw c.regs k
+
 /-- The bank's simple CSRs fit into one page (otherwise the upper ones are unreachable). -/
 def Fits (c : BankCfg) : Prop := c.simples.length ≤ 2 ^ c.pbits
 
